@@ -1180,3 +1180,36 @@ TWINS["C11"] = [
     TW("chain-factor-order", (DD, "                cum_dist[new_e] += p*new_p", "                cum_dist[new_e] += new_p*p")),
     TW("get-handler-order", (TBL, "        except (KeyError, IndexError, DomainError):\n            return default", "        except (DomainError, IndexError, KeyError):\n            return default")),
 ]
+
+# ----------------------------------------------------------------------------------- C12
+TIX = C + "table/tableindex.py"
+MTB = C + "mdp/tables.py"
+MUTANTS["C12"] = [
+    M("revert-F8-get-keyerror-only", ["IFC-3"],
+      (TBL, "        except (KeyError, IndexError, DomainError):\n            return default", "        except KeyError:\n            return default")),
+    M("statetable-misses-domainerror", ["IFC-3"],
+      (MTB, "        except (KeyError, IndexError, DomainError) as e:", "        except (KeyError, IndexError) as e:")),
+    M("noop-by-shape", ["NOOP-1"],
+      (TBL, "        new_table_index = self.table_index._updated_index(array_index)\n        if new_table_index == self.table_index:\n            return self\n        new_data = self._data[array_index]\n        if isinstance(new_data, np.ndarray):\n            return self.__class__(",
+       "        new_table_index = self.table_index._updated_index(array_index)\n        if new_table_index.shape == self.table_index.shape:\n            return self\n        new_data = self._data[array_index]\n        if isinstance(new_data, np.ndarray):\n            return self.__class__(")),
+    M("index-eq-by-names", ["NOOP-1"],
+      (TIX, "        return self._fields == other._fields", "        return self.field_names == other.field_names")),
+    M("domain-lookup-not-first", ["ORD-1"],
+      (TIX, "        # We first try to directly index into the outermost field\n        try:\n            idx = self.fields[0].domain.index(selector)\n            return (idx,)\n        except (KeyError, ValueError, TypeError):\n            pass\n        \n        # Then we handle different selector types...\n        \n        # The simplest cases are if its just a slice or ellipsis\n        if isinstance(selector, slice):\n            if selector != self._FIELD_SLICE:\n                raise SliceError(\"Only full field slices are allowed\")\n            return selector",
+       "        # The simplest cases are if its just a slice or ellipsis\n        if isinstance(selector, slice):\n            if selector != self._FIELD_SLICE:\n                raise SliceError(\"Only full field slices are allowed\")\n            return selector\n        try:\n            idx = self.fields[0].domain.index(selector)\n            return (idx,)\n        except (KeyError, ValueError, TypeError):\n            pass")),
+    M("keys-from-second-field", ["KEY-1"],
+      (TBL, "        yield from self.table_index.fields[0].domain", "        yield from self.table_index.fields[-1].domain")),
+    M("list-selection-keeps-domain", ["LIST-1"],
+      (TIX, "                    domain=domaintuple([self.fields[0].domain[i] for i in array_index])", "                    domain=domaintuple(sorted(self.fields[0].domain[i] for i in array_index))")),
+    M("prob-rank-off-by-one", ["ROW-1"],
+      (TBL, "            if new_data.ndim <= (-self.probs_start_index): ", "            if new_data.ndim < (-self.probs_start_index): ")),
+    M("validation-ignores-duplicates", ["VAL-1"],
+      (TBL, "        if not (data_shape == coords_shape == unique_shape):", "        if not (data_shape == coords_shape):")),
+    M("action-dist-other-row", ["POL-1"],
+      (C + "mdp/tabularpolicy.py", "        return self[s]\n", "        return self[self.state_list[0]]\n")),
+]
+TWINS["C12"] = [
+    TW("noop-eq-flipped", (TBL, "        if new_table_index == self.table_index:\n            return self\n        new_data = self._data[array_index]\n        if isinstance(new_data, np.ndarray):\n            return self.__class__(",
+                           "        if self.table_index == new_table_index:\n            return self\n        new_data = self._data[array_index]\n        if isinstance(new_data, np.ndarray):\n            return self.__class__(")),
+    TW("statetable-handler-order", (MTB, "        except (KeyError, IndexError, DomainError) as e:", "        except (DomainError, KeyError, IndexError) as e:")),
+]
